@@ -88,14 +88,22 @@ Variable bf : bool.                            (* parsebitfield *)
 Variable kw : option attrs.                    (* None: payload route; Some kw: keyword route *)
 Variable budget : nat.
 
-Record wst := { w_off : nat; w_pay : bytes; w_attrs : attrs }.
+(* ghost instrumentation: what each primitive read from (or wrote to) the payload, newest first.
+   It influences no result; it is what the C02 theorems talk about. *)
+Inductive fkind :=
+| FField (t : aty) (sc : option scale)                      (* _set_attribute_single *)
+| FBits (t : aty) (flags : list (string * aty))             (* _set_attribute_bitfield, flags parsed *)
+| FCfg (key : Z) (t : aty).                                 (* one key/value item of _set_attribute_cfgval *)
+Record frec := { fr_base : string; fr_idx : list nat; fr_off : nat; fr_size : nat; fr_kind : fkind; fr_val : pyval }.
+
+Record wst := { w_off : nat; w_pay : bytes; w_attrs : attrs; w_trace : list frec }.
 
 Definition get_attr (s : wst) (n : string) : result pyval :=
   match assoc_s n (w_attrs s) with Some v => Ok v | None => Raise EAttribute end.
 
 Definition set_attr (n : string) (v : pyval) (s : wst) : result wst :=
   if mem_s n readonly_names then Raise EAttribute
-  else Ok {| w_off := w_off s; w_pay := w_pay s; w_attrs := upsert n v (w_attrs s) |}.
+  else Ok {| w_off := w_off s; w_pay := w_pay s; w_attrs := upsert n v (w_attrs s); w_trace := w_trace s |}.
 
 Definition kwget (k : attrs) (n : string) (dflt : pyval) : pyval :=
   match assoc_s n k with Some v => v | None => dflt end.
@@ -125,14 +133,16 @@ Definition single (n : string) (t : aty) (sc : option scale) (idx : list nat) (s
         Ok (v, (w_pay s ++ valb)%list)
     end;
   let '(v, pay) := vp in
-  let s1 := {| w_off := w_off s; w_pay := pay; w_attrs := w_attrs s |} in
+  let s1 := {| w_off := w_off s; w_pay := pay; w_attrs := w_attrs s; w_trace := w_trace s |} in
   do s2 <-
     (if starts_with "_HP" name then
        let base := drop 3 name in
        do b <- get_attr s1 base; do sum <- py_add b v; do r <- py_round12 scalround sum;
        set_attr base r s1
      else set_attr name v s1);
-  Ok {| w_off := (w_off s + asiz)%nat; w_pay := w_pay s2; w_attrs := w_attrs s2 |}.
+  Ok {| w_off := (w_off s + asiz)%nat; w_pay := w_pay s2; w_attrs := w_attrs s2;
+        w_trace := {| fr_base := n; fr_idx := idx; fr_off := w_off s; fr_size := asiz;
+                      fr_kind := FField t sc; fr_val := v |} :: w_trace s2 |}.
 
 (* _set_attribute_bits over all flags of a bitfield *)
 Fixpoint bits_loop (flags : list (string * aty)) (idx : list nat) (bitfield : Z) (bfoff : Z) (s : wst)
@@ -168,7 +178,9 @@ Definition bitfield (t : aty) (flags : list (string * aty)) (idx : list nat) (s 
             | None => Ok (w_pay s')
             | Some _ => do b <- int_enc false bsiz bfv; Ok ((w_pay s' ++ b)%list)
             end;
-  Ok {| w_off := (w_off s + bsiz)%nat; w_pay := pay; w_attrs := w_attrs s' |}.
+  Ok {| w_off := (w_off s + bsiz)%nat; w_pay := pay; w_attrs := w_attrs s';
+        w_trace := {| fr_base := EmptyString; fr_idx := idx; fr_off := w_off s; fr_size := bsiz;
+                      fr_kind := FBits t flags; fr_val := PInt bfv |} :: w_trace s' |}.
 
 (* cfgkey2name *)
 Fixpoint cfg_find (key : Z) (db : list (string * (Z * aty))) : option (string * aty) :=
@@ -209,7 +221,10 @@ Fixpoint cfgval_loop (fuel : nat) (off : nat) (cfglen : nat) (s : wst) : result 
       let '(name, t) := na in
       do atts <- attsiz_nat t;
       do v <- bytes2val (slice (w_pay s) (off + 4) atts) t;
-      do s' <- set_attr name v s;
+      do s1 <- set_attr name v s;
+      let s' := {| w_off := w_off s1; w_pay := w_pay s1; w_attrs := w_attrs s1;
+                   w_trace := {| fr_base := name; fr_idx := []; fr_off := off; fr_size := (4 + atts)%nat;
+                                 fr_kind := FCfg key t; fr_val := v |} :: w_trace s1 |} in
       cfgval_loop f (off + 4 + atts)%nat cfglen s'
     else Ok s
   end.
@@ -265,7 +280,7 @@ Fixpoint walk (idx : list nat) (d : adef) (s : wst) {struct d} : result wst :=
         | None =>
             (* cfglen = len(payload[offset:]); the caller's offset is not advanced *)
             do s' <- cfgval_loop (S (length (w_pay s))) (w_off s) (length (w_pay s) - w_off s) s;
-            Ok {| w_off := w_off s; w_pay := w_pay s'; w_attrs := w_attrs s' |}
+            Ok {| w_off := w_off s; w_pay := w_pay s'; w_attrs := w_attrs s'; w_trace := w_trace s' |}
         end
       else
         let walk_list :=
